@@ -279,7 +279,11 @@ def run_shard(spec, ctx):
                 ctx.violation('.p8 writer: reference reader sees different code', case)
                 continue
             # reference writer -> picotool reader
-            data = rc.write_p8(regions, code, version=version, label=label)
+            # (every third file carries the `__meta:title__` section current PICO-8 appends for the title shown in splore)
+            meta = (b'title', ([b'my game', b'by me'], [b'jelpi'], [b'a b c'], [b'00 41424344'], [])[i % 5]) if i % 3 == 1 else None
+            if meta is not None:
+                ctx.feature('file_with_meta_title_section')
+            data = rc.write_p8(regions, code, version=version, label=label, meta=meta)
             try:
                 g2 = P8Formatter.from_file(io.BytesIO(data))
             except Exception as e:
@@ -463,8 +467,16 @@ def run_omitted(ctx, rng, spec):
                 ctx.feature('map_section_before_gfx_section')
             if order[-1] == 'lua':
                 ctx.feature('lua_section_last')
+        meta = (b'title', ([b'my game', b'by me'], [b'x=1'], [b'two words'])[i % 3]) if i % 4 == 2 else None
+        meta_after = None
+        if meta is not None:
+            present = [n for n in (order or ['lua', 'gfx', 'gff', 'map', 'sfx', 'music']) if n not in omit and n != 'label']
+            meta_after = (None, present[i % len(present)])[(i // 4) % 2]
+            ctx.feature('file_with_meta_title_section')
+            if meta_after:
+                ctx.feature('meta_section_not_last')
         data = rc.write_p8(regions, code, version=version, omit=omit, trim=trim, order=order,
-                           label=carts.random_bytes(rng, 8192) if i % 3 == 0 else None)
+                           label=carts.random_bytes(rng, 8192) if i % 3 == 0 else None, meta=meta, meta_after=meta_after)
         case = {'kind': 'omitted', 'regions': regions, 'omit': list(omit), 'trim': list(trim), 'code': code, 'version': version, 'order': order}
         ctx.case((rc.join_memory(regions), omit, code), nontrivial=True)
         for n in omit:
